@@ -583,8 +583,12 @@ pub fn oracle(c: &Case) -> Outcome {
                             if sends_of(a).is_empty() {
                                 continue;
                             }
+                            // position-independent: an optimiser that merges Add(x, y) with
+                            // Add(y, x) keeps every marker on a node with the same value; which
+                            // operand position it ends up in is not part of the property (values of
+                            // non-commutative operations are compared separately)
                             match image.get(&a.get_id()) {
-                                Some(ai) if ai == b => {}
+                                Some(ai) if d2.iter().any(|x| x == ai) => {}
                                 _ => {
                                     return Outcome::fail(
                                         "send-dep-dropped",
